@@ -1,11 +1,11 @@
 #!/bin/bash
 # tools/import_seed.sh <NN> [suffix=d] : copies /tmp/wt/s4-C<NN>/SEED into seeded/C<NN><suffix>/ (round-4 seeds)
 set -eu
-N=$1; S=${2:-d}
-SRC=/tmp/wt/s4-C$N/SEED
+N=$1; S=${2:-d}; R=${3:-s4}
+SRC=/tmp/wt/$R-C$N/SEED
 DST=$(dirname "$0")/../seeded/C$N$S
 mkdir -p "$DST"
 cp -r "$SRC"/. "$DST"/
-cp /tmp/wt/s4-C$N/PROPERTY.txt "$DST"/property.txt
+cp /tmp/wt/$R-C$N/PROPERTY.txt "$DST"/property.txt
 find "$DST" -name '*.o' -delete; find "$DST" -type f -size +2M -print -delete
 ls "$DST"
